@@ -460,6 +460,23 @@ func c16E2ERun(r *vkit.Run, one func(fn func(), nontrivial bool)) {
 			}
 		}
 	}
+	// an explicit --end in the future is honoured as it is; --start together with --since is accepted (--start wins)
+	future := time.Date(2200, 1, 1, 0, 0, 0, 0, time.UTC).Unix()
+	for _, startSec := range []int64{1700000000} {
+		_, inside := c16E2ERecords(startSec, future)
+		for _, en := range c16Spellings(future * 1e9) {
+			in := c16E2EInput{Args: []string{"--start=" + strconv.FormatInt(startSec, 10), "--end=" + en}, StartSec: startSec, EndSec: future, WantLines: inside}
+			one(func() { c16E2ECheck(r, in) }, true)
+		}
+		_, inside2 := c16E2ERecords(startSec, startSec+3600)
+		for _, args := range [][]string{
+			{"--start=" + strconv.FormatInt(startSec, 10), "--since=5m", "--end=" + strconv.FormatInt(startSec+3600, 10)},
+			{"--since", "2h", "--end", strconv.FormatInt(startSec+3600, 10), "--start", strconv.FormatInt(startSec, 10), "--step", "30"},
+		} {
+			in := c16E2EInput{Args: args, StartSec: startSec, EndSec: startSec + 3600, WantLines: inside2}
+			one(func() { c16E2ECheck(r, in) }, true)
+		}
+	}
 	r.GlobalState("end-to-end")
 }
 
